@@ -36,10 +36,19 @@ Lemma refuted_star : exists ks mb, refutes CStar ks mb.
 Proof. witness [KSeq [SOne SStar]]. Qed.
 Lemma refuted_reversed_range : exists ks mb, refutes CReversedRange ks mb.
 Proof. witness [KSeq [SRange (SNum (S_ "3")) (SNum (S_ "1"))]]. Qed.
-Lemma refuted_paren_group : exists ks mb, refutes CParenGroup ks mb.
-Proof. witness [KGroup [KHas FSeen]]. Qed.
-Lemma refuted_not_or_arity : exists ks mb, refutes CNotOrArity ks mb.
-Proof. witness [KNot (KHeader (S_ "Subject") (S_ "hello"))]. Qed.
+(** regression (fix "NOT and OR take complete search keys"): NOT / OR took one
+    token plus at most one argument and a parenthesised list was an unknown
+    token that matched everything; the former witnesses, and nested forms, now
+    meet the specification *)
+Definition ex_nested : list key :=
+  [ KOr (KGroup [KHas FSeen; KHdr HFrom (S_ "alice")]) (KNot (KOr (KHeader (S_ "Subject") (S_ "other")) (KNot (KGroup [KGroup [KText (S_ "three")]])))) ].
+Lemma arity_repaired :
+  search_line [KGroup [KHas FSeen]] wit_mb = ROk [1]
+  /\ search_line [KNot (KHeader (S_ "Subject") (S_ "hello"))] wit_mb = ROk [2; 3]
+  /\ wf_prog ex_nested = true /\ classify_line ex_nested wit_mb = None
+  /\ print_prog ex_nested = S_ "OR (SEEN FROM ""alice"") NOT OR HEADER ""Subject"" ""other"" NOT ((TEXT ""three""))"
+  /\ search_line ex_nested wit_mb = ROk [1; 3] /\ spec_search ex_nested wit_mb = SOk [1; 3].
+Proof. vm_compute. repeat split; reflexivity. Qed.
 Lemma refuted_unknown_key : exists ks mb, refutes CUnknownKey ks mb.
 Proof. witness [KUnknown (S_ "FOO")]. Qed.
 (** regression (fix 378938d): flags used to be tested with strings.Contains on
